@@ -188,23 +188,26 @@ def _num(t):
         return None
 
 
-def kinetics_related_surfaces(F):
-    return {p[0] for p, (val, ws) in F.items() if p[-1] == "-rate_name" and val and p[0].startswith("SURFACE ")}
-
-
 def field_diff(F1, F2):
     """differences in non-workspace fields: list of (path, v1, v2)"""
     out = []
     # a surface tied to a kinetic reactant gets the grams and charge balance of its charge structure re-derived by
     # update_kin_surface at the start of *every* simulation (on the original instance just as on the restored one), so the
     # values in the first dump are not state that a later calculation could see
-    kin_surf = kinetics_related_surfaces(F1)
+    # an exchanger / surface tied to a phase or kinetic reactant is re-scaled to (moles x proportion) of the *current*
+    # phase / reactant at the start of every simulation (update_min_* / update_kin_* in tidy_model), on the original
+    # instance just as on the restored one: its amounts in the first dump may be stale and are not compared as numbers
+    rel = related_blocks(F1)
     for p in sorted(set(F1) | set(F2)):
         a, b = F1.get(p), F2.get(p)
         if (a is not None and a[1]) or (b is not None and b[1]):
             continue
-        if p[0] in kin_surf and len(p) == 3 and p[1].startswith("-charge_component ") and p[2] in ("-charge_balance", "-grams"):
-            continue
+        if p[0] in rel:
+            if a is None or b is None:
+                if all(_num(t) == 0.0 for t in (a or b)[0]):
+                    continue
+            elif len(a[0]) == len(b[0]) and all(x == y or (_num(x) is not None and _num(y) is not None) for x, y in zip(a[0], b[0])):
+                continue
         if a is None or b is None:
             out.append((p, a and a[0], b and b[0]))
             continue
@@ -242,6 +245,8 @@ def fixed_point(Da, Db, ctx, what):
     bad = []
     for p in sorted(set(Fa) | set(Fb)):
         a, b = Fa.get(p), Fb.get(p)
+        if p[0] in rel and (a is None or b is None) and all(_num(t) == 0.0 for t in (a or b)[0]):
+            continue         # a related exchanger/surface whose phase is exhausted: zero totals are dropped by the second read
         if a is None or b is None or len(a[0]) != len(b[0]):
             bad.append((p, a and a[0], b and b[0]))
             continue
@@ -362,6 +367,9 @@ DEFAULT_SUB = {"surf_type=ddl", "gas_fixed_pressure", "kin_cvode", "surf_new_def
 # ------------------------------------------------------------------------------------------- follow-up comparison
 CONV_TOL = 1e-12      # KNOBS -convergence_tolerance of every generated calculation
 ATOL = 10 * CONV_TOL  # DESIGN section 4 rule 2: |d| <= tol_property * scale + 10 * convergence_tolerance
+# pressures: with a fixed-volume gas phase the engine iterates the pressure only until two successive values agree to
+# 0.001 atm (model.cpp: 'fabs(last_patm_x - patm_x) > 0.001' is its convergence test) -> its own criterion is added
+P_ATOL = 1e-3
 
 
 def compare_tables(TA, TB, cols, redox, what, stats=None):
@@ -385,9 +393,12 @@ def compare_tables(TA, TB, cols, redox, what, stats=None):
                 if math.isnan(a) and math.isnan(b):
                     continue
                 scale = max(abs(a), abs(b))
-                dev = (abs(a - b) - ATOL) / scale if scale > 0 else 0.0
+                dev = (abs(a - b) - (P_ATOL if k == "gasp" else ATOL)) / scale if scale > 0 else 0.0
                 if stats is not None:
                     stats[k] = max(stats.get(k, 0.0), dev)
+                if not dev <= RTOL and os.environ.get("C10_DEV_SOFT"):
+                    stats["SOFT " + what + " " + h.split("_")[0]] = dev
+                    continue
                 if not dev <= RTOL:
                     raise Violation(what, "follow-up row %d column %s: %.17g on the original, %.17g on the restored state "
                                     "(relative %.3g > 1e-7)" % (r, h, a, b, dev))
@@ -585,6 +596,9 @@ def _check(case, ctx, inst):
         classes.append("followup_compared")
     else:
         classes.append("followup_not_compared_unpoised")
+    for k in [k for k in stats if k.startswith("SOFT ")]:
+        classes.append(k)
+        del stats[k]
     for k, v in stats.items():
         key = "maxdev_" + k
         ctx.extra[key] = [max((ctx.extra.get(key) or [0.0])[0], v)]
